@@ -38,7 +38,8 @@ ASSUMPTIONS = [
     "set/dict iteration order is not part of the compared result (PYTHONHASHSEED is fixed from the seed for reproducibility)",
 ]
 
-TIMEOUT_S = 3.0
+TIMEOUT_S = 3.0          # a healthy precompute on 60 tasks takes milliseconds
+_timeouts_seen = 0       # after a few hangs the limit is lowered so that a looping implementation cannot stall the check
 
 
 # ----------------------------------------------------------------------------- real side
@@ -78,9 +79,12 @@ def build_job(case):
     return JobInstance(tasks=tasks, edges=edges)
 
 
-def run_real(case, real_pool=False):
+def run_real(case, real_pool=False, timeout=None):
     """Returns the raw result {"pre": Preschedule, "paths": {frozenset(nodes): paths}} or {"error": enum}."""
+    global _timeouts_seen
     import cascade.scheduler.graph as graph
+    if timeout is None:
+        timeout = TIMEOUT_S if _timeouts_seen < 3 else 0.5
     captured = []
     orig_ncd = graph.nearest_common_descendant
     orig_pool = graph.ThreadPoolExecutor
@@ -96,13 +100,14 @@ def run_real(case, real_pool=False):
     try:
         job = build_job(case)
         if not real_pool:
-            signal.setitimer(signal.ITIMER_REAL, TIMEOUT_S)
+            signal.setitimer(signal.ITIMER_REAL, timeout)
         try:
             pre = graph.precompute(job)
         finally:
             signal.setitimer(signal.ITIMER_REAL, 0)
         return {"pre": pre, "paths": captured}
     except _Timeout:
+        _timeouts_seen += 1
         return {"error": "Timeout"}
     except BaseException as e:  # noqa: the real code's exception is a result
         if isinstance(e, (KeyboardInterrupt, SystemExit)):
@@ -404,16 +409,19 @@ def oracle(case, res):
 
 
 def shrink(case, kind):
-    """Greedy: drop edges, then tasks without edges, while the same kind of failure persists."""
+    """Greedy: drop edges, then tasks without edges, while the same kind of failure persists (time-boxed)."""
+    import time
+    t_end = time.time() + 20
+
     def fails(c):
-        if not well_formed(c):
+        if time.time() > t_end or not well_formed(c):
             return False
-        f = oracle(c, run_real(c))
+        f = oracle(c, run_real(c, timeout=0.5))
         return f is not None and f[0] == kind
     cur = {"tasks": [list(t) for t in case["tasks"]], "edges": [dict(e) for e in case["edges"]]}
     changed = True
     rounds = 0
-    while changed and rounds < 6:
+    while changed and rounds < 6 and time.time() < t_end:
         changed = False
         rounds += 1
         for i in range(len(cur["edges"]) - 1, -1, -1):
@@ -506,8 +514,14 @@ def _evaluate(ctx, cases, compare=True):
         if wf:
             f = oracle(case, res)
             if f:
+                ctx.count("oracle_failure:" + f[0])
+                seen = sum(1 for v in ctx.violations if v["signature"].get("kind") == f[0])
+                if seen >= 3:
+                    continue     # same kind already reported with shrunk witnesses
                 small = shrink(case, f[0])
-                f2 = oracle(small, run_real(small)) or f
+                f2 = oracle(small, run_real(small, timeout=TIMEOUT_S))
+                if f2 is None or f2[0] != f[0]:
+                    small, f2 = case, f
                 ctx.violation({"kind": f2[0]}, {"job": small}, f2[1])
     if not compare:
         return
@@ -568,6 +582,8 @@ def correspond(ctx):
 
 def search(ctx, why):
     """(P) or (T) broken: look harder for an input on which the REAL code violates the property."""
+    if ctx.violations:
+        return      # the oracle already has failing inputs from the correspondence pass
     seeds = []
     for d in why.get("disagreements", []):
         j = d.get("case", {}).get("job")
